@@ -1513,6 +1513,19 @@ class ClassicChannel(utils.EventEmitter):
 
     def on_configure_response(self, response: L2CAP_Configure_Response) -> None:
         if response.result == L2CAP_Configure_Response.Result.SUCCESS:
+            if response.flags & 0x0001:
+                # Continuation flag: the responder has more options to send, ask for
+                # them with a request that has no options
+                # (BT Core Spec, Vol 3, Part A, 4.5 CONFIGURATION RESPONSE)
+                self.send_control_frame(
+                    L2CAP_Configure_Request(
+                        identifier=self.manager.next_identifier(self.connection),
+                        destination_cid=self.destination_cid,
+                        flags=0x0000,
+                        options=b'',
+                    )
+                )
+                return
             if self.state == self.State.WAIT_CONFIG_REQ_RSP:
                 self._change_state(self.State.WAIT_CONFIG_REQ)
             elif self.state in (
